@@ -756,4 +756,3 @@ func firstLine(s, prefix string) string {
 	}
 	return ""
 }
-
